@@ -184,3 +184,10 @@ Theorem C13_decreasing_bounds day oc n ss ubs : nondec ubs = false -> nondec (re
   stitch day oc n ss (UbList ubs) = stitch day oc n (rev ss) (UbList (rev ubs)).
 Proof. intros H1 H2. unfold stitch. rewrite H1, H2. reflexivity. Qed.
 Print Assumptions C13_decreasing_bounds.
+Theorem C13_decreasing_bounds_lb_both day oc n ss lb ub :
+  (nondec lb = false -> nondec (rev lb) = true ->
+     stitch day oc n ss (LbList lb) = stitch day oc n (rev ss) (LbList (rev lb))) /\
+  (nondec lb = false -> nondec ub = false -> nondec (rev lb) = true -> nondec (rev ub) = true ->
+     stitch day oc n ss (BothLists lb ub) = stitch day oc n (rev ss) (BothLists (rev lb) (rev ub))).
+Proof. split; intros; unfold stitch; repeat match goal with H : nondec _ = _ |- _ => rewrite H; clear H end; reflexivity. Qed.
+Print Assumptions C13_decreasing_bounds_lb_both.
